@@ -279,6 +279,10 @@ pub struct Alphabet {
     /// observability callbacks of `Xp` nodes write `1` (became observed) / `0` (no longer observed) to this
     /// variable; like every write made during a stabilise it must reach the graph only at the next one
     pub obs_cb_sets_var: Option<u8>,
+    /// `(node, var)`: the function of the outer `Map` node `node` also writes `(argument + 1) mod 2` to variable `var`
+    /// (a node function may own a `Var` handle). The write is deferred to the end of the stabilise; after a panic later
+    /// in the same stabilise it stays pending for ever (after seed C13-f).
+    pub fn_sets_var: Option<(u8, u8)>,
 }
 
 impl Default for Alphabet {
@@ -303,6 +307,7 @@ impl Default for Alphabet {
             handler_sets_var: None,
             handler_self_disallow: false,
             obs_cb_sets_var: None,
+            fn_sets_var: None,
         }
     }
 }
@@ -316,6 +321,7 @@ impl Alphabet {
             "observe_inner": self.observe_inner, "max_observers": self.max_observers, "max_subs": self.max_subs,
             "closures_read_observers": self.closures_read_observers, "observable": self.observable,
             "handler_self_unsub": self.handler_self_unsub, "handler_sets_var": self.handler_sets_var, "obs_cb_sets_var": self.obs_cb_sets_var, "handler_self_disallow": self.handler_self_disallow,
+            "fn_sets_var": self.fn_sets_var.map(|(n, v)| vec![n, v]),
         })
     }
     pub fn from_json(j: &Json) -> Option<Alphabet> {
@@ -339,6 +345,7 @@ impl Alphabet {
             handler_self_disallow: b("handler_self_disallow"),
             handler_sets_var: j.get("handler_sets_var").and_then(|v| v.as_u64()).map(|x| x as u8),
             obs_cb_sets_var: j.get("obs_cb_sets_var").and_then(|v| v.as_u64()).map(|x| x as u8),
+            fn_sets_var: j.get("fn_sets_var").and_then(|v| v.as_array()).and_then(|a| Some((a.first()?.as_u64()? as u8, a.get(1)?.as_u64()? as u8))),
             observable: j
                 .get("observable")
                 .and_then(|v| v.as_array())
